@@ -169,6 +169,9 @@ static int signalled = 0;
    Q [now acc connect soerr fd:...] : a termination signal arrives while the daemon sleeps in poll (with whatever else is ready) */
 static int read_op(void){
     if (!fgets(line, sizeof line, stdin)) { fflush(stdout); _exit(0); }
+    /* J n (harness-only state injection, used by the id-wrap scenario alone): the client id sequence continues at n, as if n-1
+       connections had been accepted before - the only trace an accepted and closed connection leaves in the daemon */
+    while (line[0] == 'J') { cli_id_seq = atoi(line + 2); if (!fgets(line, sizeof line, stdin)) { fflush(stdout); _exit(0); } }
     char op = line[0];
     EACHK(i) K[i].rev = 0; K[i].rk = 0; K[i].cap = 1 << 30; K[i].len = K[i].off = K[i].reads = K[i].readres = K[i].wlen = K[i].werr = K[i].wblock = K[i].writes = K[i].rblock = 0; }
     k_acc = 0; k_hup = -1;
